@@ -336,6 +336,22 @@ serve(objective_type& obj, const Prob& pr, const std::string& kind, int s)
       a.is_val = true;
       a.val = obj.compute_objective_function(*pr.lambda, s);
     }
+  else if (kind == "fpvalue")
+    {
+      a.is_val = true;
+      a.val = obj.compute_objective_function(*pr.lambda);
+    }
+  else if (kind == "fpgrad")
+    {
+      obj.compute_gradient(*g, *pr.lambda);
+      img();
+    }
+  else if (kind == "fphess")
+    {
+      if (obj.accumulate_Hessian_times_input(*g, *pr.lambda, *pr.input) != Succeeded::yes)
+        throw std::runtime_error("accumulate_Hessian_times_input reports failure");
+      img();
+    }
   else if (kind == "grad")
     {
       obj.compute_sub_gradient_without_penalty(*g, *pr.lambda, s);
@@ -434,7 +450,7 @@ reference(const Prob& pr, const std::string& kind, int s, bool sens_groups_by_no
           pv += e.second * vin[(size_t)e.first];
         }
       const double ybar = row.n * f;
-      if (kind == "value" || kind == "fvalue" || kind == "pvalue")
+      if (kind == "value" || kind == "fvalue" || kind == "pvalue" || kind == "fpvalue")
         {
           if (row.y > 0)
             {
@@ -449,7 +465,7 @@ reference(const Prob& pr, const std::string& kind, int s, bool sens_groups_by_no
           continue;
         }
       double w = 0, wm = 0;
-      if (kind == "grad" || kind == "fgrad" || kind == "pgrad")
+      if (kind == "grad" || kind == "fgrad" || kind == "pgrad" || kind == "fpgrad")
         {
           w = (row.y > 0 ? row.y / f : 0.) - row.n;
           wm = (row.y > 0 ? row.y / f : 0.) + row.n;
@@ -458,7 +474,7 @@ reference(const Prob& pr, const std::string& kind, int s, bool sens_groups_by_no
         {
           w = wm = (row.y > 0 ? row.y / f : 0.);
         }
-      else if (kind == "hess" || kind == "fhess" || kind == "phess")
+      else if (kind == "hess" || kind == "fhess" || kind == "phess" || kind == "fphess")
         {
           w = row.y > 0 ? -row.y * pv / (f * f) : 0.;
           wm = -w;
@@ -483,6 +499,8 @@ check_against_reference(const Prob& pr, objective_type& obj, const std::string& 
       double expect = r.val;
       if (kind == "pvalue" && pr.use_prior)
         expect -= obj.get_prior_ptr()->compute_value(*pr.lambda) / pr.num_subsets;
+      if (kind == "fpvalue" && pr.use_prior)
+        expect -= obj.get_prior_ptr()->compute_value(*pr.lambda);
       const double tol = 2e-5 * r.valmag + 1e-6;
       if (!(std::fabs(a.val - expect) <= tol))
         sim::fail("formula:" + kind, "%s(subset %d of %d) returns %.12g, the explicit matrix gives %.12g (tolerance %.3g)", kind.c_str(), s,
@@ -490,19 +508,21 @@ check_against_reference(const Prob& pr, objective_type& obj, const std::string& 
       return;
     }
   std::vector<double> expect = r.img;
-  if (kind == "pgrad" && pr.use_prior)
+  if ((kind == "pgrad" || kind == "fpgrad") && pr.use_prior)
     {
+      const double share = kind == "pgrad" ? 1. / pr.num_subsets : 1.;
       shared_ptr<target_type> pg(pr.lambda->get_empty_copy());
       obj.get_prior_ptr()->compute_gradient(*pg, *pr.lambda);
       size_t i = 0;
       for (auto it = pg->begin_all(); it != pg->end_all(); ++it, ++i)
         {
-          expect[i] -= (double)*it / pr.num_subsets;
-          r.mag[i] += std::fabs((double)*it) / pr.num_subsets;
+          expect[i] -= (double)*it * share;
+          r.mag[i] += std::fabs((double)*it) * share;
         }
     }
-  if (kind == "phess" && pr.use_prior)
+  if ((kind == "phess" || kind == "fphess") && pr.use_prior)
     {
+      const double share = kind == "phess" ? 1. / pr.num_subsets : 1.;
       // penalised Hessian product = unpenalised one minus the prior's Hessian applied to the SAME input, shared between the subsets
       shared_ptr<target_type> ph(pr.lambda->get_empty_copy());
       ph->fill(0.f);
@@ -510,8 +530,8 @@ check_against_reference(const Prob& pr, objective_type& obj, const std::string& 
       size_t i = 0;
       for (auto it = ph->begin_all(); it != ph->end_all(); ++it, ++i)
         {
-          expect[i] -= (double)*it / pr.num_subsets;
-          r.mag[i] += std::fabs((double)*it) / pr.num_subsets;
+          expect[i] -= (double)*it * share;
+          r.mag[i] += std::fabs((double)*it) * share;
         }
       sim::probe("penalised_hessian_product_checked");
     }
@@ -785,7 +805,8 @@ gen(uint64_t seed, const std::string& tier, long idx)
   p.cfg["prior"] = r.chance(0.4);
   p.cfg["beta"] = r.range(0, 4);
   p.cfg["data_seed"] = (long)r.below(1000000);
-  static const char* kinds[] = { "value", "grad", "gradsens", "sens", "hess", "ahess", "fvalue", "fgrad", "fhess", "pvalue", "pgrad", "phess" };
+  static const char* kinds[] = { "value", "grad", "gradsens", "sens", "hess", "ahess", "fvalue", "fgrad", "fhess", "pvalue", "pgrad", "phess",
+                                 "fpvalue", "fpgrad", "fphess" };
   const int nops = (int)r.range(2, thorough ? 16 : 9);
   for (int i = 0; i < nops; ++i)
     {
